@@ -144,6 +144,17 @@ Fixpoint emit_written (i : nat) (ws : list make_write) : list nat :=
   | WCrash :: _ => []
   end.
 
+(* Two make_* directives may name the same file (the path, after normalisation, is a number here).  emit_files walks
+   the LIST of directives in source order, so on one path the last successful writer wins.
+   [disk p] = which directive's output the file p holds (None: untouched). *)
+Fixpoint emit_disk (i : nat) (ws : list (N * make_write)) (disk : N -> option nat) : N -> option nat :=
+  match ws with
+  | [] => disk
+  | (p, WOk) :: r => emit_disk (S i) r (fun q => if N.eqb q p then Some i else disk q)
+  | (_, WReported _) :: r => emit_disk (S i) r disk
+  | (_, WCrash) :: _ => disk
+  end.
+
 Record cli_result := mk_cli
   { c_status : Z
   ; c_written : list nat                        (* files created or overwritten by the run *)
